@@ -1,5 +1,6 @@
 use crate::util::Tok;
 
+mod c02;
 mod c03;
 mod c04;
 mod c05;
@@ -11,6 +12,7 @@ mod c15;
 
 pub fn run(engine: &str, toks: Vec<Tok>) -> Vec<Tok> {
     match engine {
+        "c02_run" => c02::run(toks),
         "c03_is_global" => c03::is_global(toks),
         "c03_connect" => c03::connect(toks),
         "c03_v4_sweep" => c03::v4_sweep(toks),
